@@ -24,7 +24,7 @@ TINY = {
  (library prims (edifLevel 0) (technology (numberDefinition))
   (cell BUF (cellType GENERIC) (view netlist (viewType NETLIST) (interface (port I (direction INPUT)) (port O (direction OUTPUT))))))
  (library work (edifLevel 0) (technology (numberDefinition))
-  (cell mid (cellType GENERIC) (view netlist (viewType NETLIST) (interface (port m (direction INPUT)))
+  (cell mid (cellType GENERIC) (view netlist (viewType NETLIST) (interface (port m (direction INPUT)) (port I (direction INPUT)))
    (contents (instance x9 (viewRef netlist (cellRef BUF (libraryRef prims))))
     (net m (joined (portRef m) (portRef I (instanceRef x9)))))))
   (cell top (cellType GENERIC) (view netlist (viewType NETLIST)
@@ -85,9 +85,28 @@ def tokens(text):
     return TOKEN_RE.findall(text)
 
 
+CHAIN_V = '''module X(input i);
+endmodule
+module D(input i);
+endmodule
+module A(input i);
+  B b(.i(i));
+endmodule
+module B(input i);
+  D a(.i(i));
+  C c(.i(i));
+endmodule
+module C(input i);
+  X x(.i(i));
+endmodule
+'''
+
+
 def sources(fmt, n_files, max_bytes):
     """(name, text) of the n smallest bundled examples of a format (+ the tiny hand-written one)"""
     out = [('tiny.' + fmt, TINY[fmt])]
+    if fmt == 'verilog':
+        out.append(('tiny.chain.v', CHAIN_V))      # modules listed bottom-up except one: name swaps make instancing cycles
     d, ext = DIRS[fmt]
     cands = []
     for fn in os.listdir(os.path.join(EX, d)):
@@ -204,6 +223,15 @@ def exhaustive(fmt, text):
             cut = len(t) - 2
             out.append((''.join(toks[:k]) + t[:cut], 'truncate-in-string', k))
             out.append((''.join(toks[:k] + [t[:cut] + '\u00e9' + t[cut:]] + toks[k + 1:]), 'garbage-in-string', k))
+    if fmt == 'verilog':
+        # an instantiated module name re-spelled as every other module the file declares: the hierarchy may then
+        # contain modules that instantiate each other - the reader has to come back
+        mods = [toks[idx[a + 1]] for a, i in enumerate(idx[:-1]) if toks[i] == 'module']
+        for a, i in enumerate(idx):
+            if toks[i] in mods and a and toks[idx[a - 1]] != 'module':
+                for mname in mods:
+                    if mname != toks[i]:
+                        out.append((''.join(toks[:i] + [mname] + toks[i + 1:]), 'cross:module', i))
     if fmt == 'edif':
         for a in APPENDED:
             out.append((text.rstrip() + ' ' + a, 'append', len(toks)))
